@@ -80,33 +80,83 @@ fn strat_name(s: &FriReductionStrategy) -> &'static str {
         FriReductionStrategy::MinSize(_) => "minsize",
     }
 }
-fn strat_len(s: &FriReductionStrategy) -> usize {
-    s.serialize::<F>().len()
-}
-/// change atom `i` (0-based) of the serialised strategy, keeping the serialised length
-fn perturb_strategy(s: &mut FriReductionStrategy, i: usize) -> bool {
+/// SEMANTIC neighbours of a reduction strategy, independent of how the crate serialises it: every entry is a
+/// DIFFERENT `FriReductionStrategy` value, i.e. a different statement parameter.  (name of the altered
+/// parameter, the altered strategy)
+fn strategy_perturbations(s: &FriReductionStrategy) -> Vec<(String, FriReductionStrategy)> {
     use FriReductionStrategy::*;
-    let new = match (s.clone(), i) {
-        (ConstantArityBits(a, b), 0) => Fixed(vec![a, b]),
-        (ConstantArityBits(a, b), 1) => ConstantArityBits(a + 1, b),
-        (ConstantArityBits(a, b), 2) => ConstantArityBits(a, b + 1),
-        (MinSize(m), 0) => Fixed(vec![m.unwrap_or(0)]),
-        (MinSize(m), 1) => MinSize(Some(m.unwrap_or(0) + 1)),
-        (Fixed(v), 0) => match v.len() {
-            2 => ConstantArityBits(v[0], v[1]),
-            1 => MinSize(Some(v[0])),
-            // the single-element serialisation [0] has no neighbour of the same length: lengthen it
-            0 => Fixed(vec![1]),
-            _ => return false,
-        },
-        (Fixed(mut v), k) if k >= 1 && k - 1 < v.len() => {
-            v[k - 1] += 1;
-            Fixed(v)
+    let mut v: Vec<(String, FriReductionStrategy)> = vec![];
+    match s.clone() {
+        ConstantArityBits(a, b) => {
+            v.push(("cab.arity_bits+1".into(), ConstantArityBits(a + 1, b)));
+            if a > 0 {
+                v.push(("cab.arity_bits-1".into(), ConstantArityBits(a - 1, b)));
+            }
+            v.push(("cab.final_poly_bits+1".into(), ConstantArityBits(a, b + 1)));
+            if b > 0 {
+                v.push(("cab.final_poly_bits-1".into(), ConstantArityBits(a, b - 1)));
+            }
+            v.push(("variant->fixed".into(), Fixed(vec![a, b])));
+            v.push(("variant->minsize".into(), MinSize(Some(a.max(1)))));
         }
-        _ => return false,
-    };
-    *s = new;
-    true
+        Fixed(xs) => {
+            for i in 0..xs.len() {
+                let mut y = xs.clone();
+                y[i] += 1;
+                v.push((format!("fixed.arity[{i}]+1"), Fixed(y)));
+                if xs[i] > 0 {
+                    let mut y = xs.clone();
+                    y[i] -= 1;
+                    v.push((format!("fixed.arity[{i}]-1"), Fixed(y)));
+                }
+            }
+            let mut y = xs.clone();
+            y.push(1);
+            v.push(("fixed.append".into(), Fixed(y)));
+            if !xs.is_empty() {
+                let mut y = xs.clone();
+                y.pop();
+                v.push(("fixed.remove_last".into(), Fixed(y)));
+            }
+            v.push(("variant->cab".into(), ConstantArityBits(xs.first().copied().unwrap_or(1), xs.get(1).copied().unwrap_or(1))));
+            v.push(("variant->minsize".into(), MinSize(Some(xs.first().copied().unwrap_or(1).max(1)))));
+        }
+        MinSize(o) => {
+            match o {
+                None => {
+                    v.push(("minsize.none<->some".into(), MinSize(Some(3))));
+                    v.push(("minsize.none<->some(1)".into(), MinSize(Some(1))));
+                }
+                Some(k) => {
+                    v.push(("minsize.none<->some".into(), MinSize(None)));
+                    v.push(("minsize.k+1".into(), MinSize(Some(k + 1))));
+                    if k > 1 {
+                        v.push(("minsize.k-1".into(), MinSize(Some(k - 1))));
+                    }
+                }
+            }
+            v.push(("variant->cab".into(), ConstantArityBits(o.unwrap_or(2).max(1), 1)));
+            v.push(("variant->fixed".into(), Fixed(vec![o.unwrap_or(2)])));
+        }
+    }
+    v.retain(|(_, t)| t != s);
+    v
+}
+/// strategies that are different values but are serialised identically by the crate (reported, see c04.py)
+fn strategy_encoding_probe() -> Value {
+    use FriReductionStrategy::*;
+    let a = MinSize(None).serialize::<F>();
+    let b = MinSize(Some(0)).serialize::<F>();
+    json!({"MinSize(None) vs MinSize(Some(0)) serialise identically": a == b})
+}
+fn perturb_strategy(s: &mut FriReductionStrategy, i: usize) -> bool {
+    match strategy_perturbations(s).into_iter().nth(i) {
+        Some((_, t)) => {
+            *s = t;
+            true
+        }
+        None => false,
+    }
 }
 fn perturb_fri_config(c: &mut FriConfig, class: &str, i: usize) -> bool {
     match class {
@@ -188,7 +238,7 @@ fn plonk_classes<C: GenericConfig<D, F = F>>(ti: &Ti<C>) -> Vec<(String, usize)>
     let fp = &ti.common.fri_params;
     let mut v: Vec<(String, usize)> = vec![
         ("fri.rate_bits".into(), 1), ("fri.cap_height".into(), 1), ("fri.proof_of_work_bits".into(), 1),
-        ("fri.reduction_strategy".into(), strat_len(&fp.config.reduction_strategy)),
+        ("fri.reduction_strategy".into(), strategy_perturbations(&fp.config.reduction_strategy).len()),
         ("fri.num_query_rounds".into(), 1), ("fri.hiding".into(), 1), ("fri.degree_bits".into(), 1),
         ("fri.reduction_arity_bits".into(), fp.reduction_arity_bits.len()),
         ("circuit_digest".into(), hash_atoms(&ti.digest)), ("public_inputs_hash".into(), 4),
@@ -298,19 +348,20 @@ fn plonk_elements<C: GenericConfig<D, F = F>>(ti: &Ti<C>, class: &str) -> Option
 }
 
 /// Re-execute TLC's program (spec/Transcript.tla `FullSchedule`) on a fresh challenger.
-fn run_program<H: Hasher<F>>(prog: &Value, elements: &dyn Fn(&str) -> Option<Vec<F>>, lde_size: usize) -> Result<Chal, String> {
+fn run_program<H: Hasher<F>>(prog: &Value, elements: &dyn Fn(&str) -> Option<Vec<F>>, lde_size: usize) -> Result<Chal, Value> {
     let mut ch = Challenger::<F, H>::new();
     let mut out = Chal::new();
-    for s in prog.as_array().ok_or("program")? {
+    for s in prog.as_array().ok_or_else(|| json!({"program_error": "no program"}))? {
         let class = s["class"].as_str().unwrap_or("");
         let n = s["n"].as_u64().unwrap_or(0) as usize;
         if n == 0 {
             continue;
         }
         if s["k"] == "O" {
-            let els = elements(class).ok_or_else(|| format!("program observes unknown class {class}"))?;
+            let els = elements(class).ok_or_else(|| json!({"program_error": format!("program observes unknown class {class}")}))?;
             if els.len() != n {
-                return Err(format!("program observes {n} elements of {class}, the proof has {}", els.len()));
+                // the specification absorbs n elements of this component, the code (its own serialisation) m
+                return Err(json!({"count_mismatch": {"class": class, "specification": n, "code": els.len()}}));
             }
             ch.observe_elements(&els);
         } else {
@@ -419,6 +470,7 @@ fn matrix_of<T: Clone>(
     classes: &[(String, usize)],
     chal: &dyn Fn(&T) -> Result<Chal, String>,
     perturb: &dyn Fn(&mut T, &str, usize) -> bool,
+    label: &dyn Fn(&T, &str, usize) -> Option<String>,
 ) -> Result<(Value, Chal, u64, u64), String> {
     let c0 = chal(base)?;
     let names: Vec<String> = c0.keys().cloned().collect();
@@ -430,8 +482,10 @@ fn matrix_of<T: Clone>(
         let mut example: BTreeMap<String, u64> = BTreeMap::new();
         let (mut done, mut errors, mut skipped) = (0u64, 0u64, 0u64);
         let mut first_err = Value::Null;
+        let mut params: Vec<Value> = vec![];
         for i in 0..*n {
             let mut t = base.clone();
+            let lab = label(base, class, i);
             if !perturb(&mut t, class, i) {
                 skipped += 1;
                 continue;
@@ -440,6 +494,9 @@ fn matrix_of<T: Clone>(
             match chal(&t) {
                 Err(e) => {
                     errors += 1;
+                    if let Some(l) = &lab {
+                        params.push(json!({"param": l, "comparable": false, "error": e}));
+                    }
                     if first_err.is_null() {
                         first_err = json!(e);
                     }
@@ -447,6 +504,10 @@ fn matrix_of<T: Clone>(
                 Ok(c1) => {
                     done += 1;
                     nontrivial += 1;
+                    if let Some(l) = &lab {
+                        let un: Vec<&String> = names.iter().filter(|k| c1.get(*k) == c0.get(*k)).collect();
+                        params.push(json!({"param": l, "comparable": true, "unchanged": un}));
+                    }
                     for k in &names {
                         if c1.get(k) == c0.get(k) {
                             *unchanged.get_mut(k).unwrap() += 1;
@@ -459,7 +520,8 @@ fn matrix_of<T: Clone>(
             }
         }
         comps.insert(class.clone(), json!({"atoms": n, "perturbed": done, "not_comparable": errors, "skipped": skipped,
-            "first_error": first_err, "unchanged": unchanged, "changed": changed, "unchanged_example_atom": example}));
+            "first_error": first_err, "unchanged": unchanged, "changed": changed, "unchanged_example_atom": example,
+            "params": params}));
     }
     Ok((json!({"challenges": names, "components": comps}), c0, evals, nontrivial))
 }
@@ -492,7 +554,8 @@ fn plonk_one<C: GenericConfig<D, F = F>>(case: &PlonkCase, hasher: &str, program
         return Ok(out);
     }
     let classes = plonk_classes(&ti);
-    let (m, c0, evals, nontrivial) = matrix_of(&ti, &classes, &|t| plonk_challenges(t), &|t, c, i| plonk_perturb(t, c, i)).map_err(|e| anyhow::anyhow!(e))?;
+    let (m, c0, evals, nontrivial) = matrix_of(&ti, &classes, &|t| plonk_challenges(t), &|t, c, i| plonk_perturb(t, c, i),
+        &|t, c, i| if c == "fri.reduction_strategy" { strategy_perturbations(&t.common.fri_params.config.reduction_strategy).get(i).map(|x| x.0.clone()) } else { None }).map_err(|e| anyhow::anyhow!(e))?;
     out["matrix"] = m;
     out["evaluations"] = json!(evals);
     out["nontrivial"] = json!(nontrivial);
@@ -524,7 +587,7 @@ fn plonk_one<C: GenericConfig<D, F = F>>(case: &PlonkCase, hasher: &str, program
         let got = run_program::<C::Hasher>(&p["program"], &|c| plonk_elements(&ti, c), 1usize << lde_bits);
         let mut diffs = vec![];
         match got {
-            Err(e) => diffs.push(json!({"program_error": e})),
+            Err(e) => diffs.push(e),
             Ok(g) => {
                 for (k, v) in &c0 {
                     let want: Vec<u64> = if k == "plonk_deltas" { v[2 * ti.common.config.num_challenges..].to_vec() } else { v.clone() };
@@ -713,7 +776,7 @@ fn stark_classes(si: &Si) -> Vec<(String, usize)> {
         ("public_input".into(), si.proof.public_inputs.len()),
         ("cfg.security_bits".into(), 1), ("cfg.num_challenges".into(), 1),
         ("fri.rate_bits".into(), 1), ("fri.cap_height".into(), 1), ("fri.proof_of_work_bits".into(), 1),
-        ("fri.reduction_strategy".into(), strat_len(&si.config.fri_config.reduction_strategy)),
+        ("fri.reduction_strategy".into(), strategy_perturbations(&si.config.fri_config.reduction_strategy).len()),
         ("fri.num_query_rounds".into(), 1),
         ("trace_cap".into(), p.trace_cap.0.len() * 4),
         ("degree_bits".into(), 1),
@@ -841,14 +904,22 @@ fn stark_cases(thorough: bool) -> Vec<StarkCase> {
     let vd = StarkConfig::new(80, 2, FriConfig { rate_bits: 1, cap_height: 4, proof_of_work_bits: 16, reduction_strategy: FriReductionStrategy::ConstantArityBits(2, 3), num_query_rounds: 84 });
     v.push(StarkCase { name: "fib-pi/vardeg-6of8", config: vd.clone(), log_rows: 6, kind: Kind::FibPi, verifier_degree_bits: Some(8) });
     v.push(StarkCase { name: "fib-nopi/vardeg-7of8", config: vd, log_rows: 7, kind: Kind::FibNoPi, verifier_degree_bits: Some(8) });
+    // MinSize with and without a maximal arity (every strategy variant occurs in the quick tier)
+    v.push(StarkCase {
+        name: "fib-pi/minsize",
+        config: StarkConfig::new(60, 2, FriConfig { rate_bits: 2, cap_height: 3, proof_of_work_bits: 10, reduction_strategy: FriReductionStrategy::MinSize(Some(3)), num_query_rounds: 25 }),
+        log_rows: if thorough { 10 } else { 8 },
+        kind: Kind::FibPi,
+        verifier_degree_bits: None,
+    });
+    v.push(StarkCase {
+        name: "fib-tag/minsize-none",
+        config: StarkConfig::new(40, 1, FriConfig { rate_bits: 2, cap_height: 2, proof_of_work_bits: 6, reduction_strategy: FriReductionStrategy::MinSize(None), num_query_rounds: 20 }),
+        log_rows: 7,
+        kind: Kind::FibTag,
+        verifier_degree_bits: None,
+    });
     if thorough {
-        v.push(StarkCase {
-            name: "fib-pi/minsize",
-            config: StarkConfig::new(60, 2, FriConfig { rate_bits: 2, cap_height: 3, proof_of_work_bits: 10, reduction_strategy: FriReductionStrategy::MinSize(Some(3)), num_query_rounds: 25 }),
-            log_rows: 10,
-            kind: Kind::FibPi,
-            verifier_degree_bits: None,
-        });
         v.push(StarkCase {
             name: "fib-nopi/cab",
             config: StarkConfig::new(50, 1, FriConfig { rate_bits: 1, cap_height: 2, proof_of_work_bits: 8, reduction_strategy: FriReductionStrategy::ConstantArityBits(2, 2), num_query_rounds: 42 }),
@@ -912,11 +983,13 @@ fn stark_one(case: &StarkCase, only_cfg: bool, salt: u64) -> anyhow::Result<Valu
         return Ok(out);
     }
     let classes = stark_classes(&si);
-    let (m, _c0, evals, nontrivial) = matrix_of(&si, &classes, &stark_challenges, &|t, c, i| stark_perturb(t, c, i)).map_err(|e| anyhow::anyhow!(e))?;
+    let (m, _c0, evals, nontrivial) = matrix_of(&si, &classes, &stark_challenges, &|t, c, i| stark_perturb(t, c, i),
+        &|t, c, i| if c == "fri.reduction_strategy" { strategy_perturbations(&t.config.fri_config.reduction_strategy).get(i).map(|x| x.0.clone()) } else { None }).map_err(|e| anyhow::anyhow!(e))?;
     out["matrix"] = m;
     out["evaluations"] = json!(evals);
     out["nontrivial"] = json!(nontrivial);
     out["program_replayed"] = json!(false);
+    out["strategy_encoding_probe"] = strategy_encoding_probe();
     Ok(out)
 }
 
